@@ -99,6 +99,7 @@ class Ctx:
         """a violation established on a symbolic path without a residual query (e.g. the code raised
         on a feasible path); still replayed before being reported."""
         self.direct_violations.append((name, family, params, what))
+        self.log("candidate (no residual query): %s: %s" % (name, str(what)[:300]))
 
     def bound(self, k, v):
         self.bounds[k] = v
